@@ -32,9 +32,10 @@ type artefact struct {
 }
 
 type state struct {
-	arts    []*artefact
-	orphans []string // generated files in the tree that no generator run produced
-	fatal   string
+	arts         []*artefact
+	orphans      []string // generated files in the tree that no generator run produced
+	fatal        string
+	allInOneRuns int // generator runs over all spec sources at once (both orders)
 }
 
 var ws *state
@@ -132,6 +133,7 @@ func regenerate() *state {
 		st.arts = append(st.arts, a)
 	}
 	// ow-specgen for every model source with a spec block, three times (map iteration order inside the generator)
+	var specSources []string
 	for _, f := range listGoFiles(filepath.Join(tmp, "models")) {
 		if strings.HasPrefix(filepath.Base(f), "generated_") {
 			continue
@@ -141,6 +143,7 @@ func regenerate() *state {
 			continue
 		}
 		relSrc, _ := filepath.Rel(tmp, f)
+		specSources = append(specSources, relSrc)
 		// which files a generator run writes is found by looking at the directory before and after (not by reading
 		// the generator's messages, whose wording is not part of any contract)
 		var mine []string
@@ -172,6 +175,33 @@ func regenerate() *state {
 					a.regenerated = append(a.regenerated, b)
 				}
 			}
+		}
+	}
+	// the generator takes any number of sources: one run over all of them, in both orders, must give the same files
+	// (nothing may be carried from one model to the next inside a generator process)
+	if len(specSources) > 1 {
+		for _, rev := range []bool{false, true} {
+			args := []string{}
+			for i := range specSources {
+				if rev {
+					args = append(args, "./"+specSources[len(specSources)-1-i])
+				} else {
+					args = append(args, "./"+specSources[i])
+				}
+			}
+			out, err := sh(tmp, goenv, filepath.Join(bin, "ow-specgen"), args...)
+			for _, a := range st.arts {
+				if a.kind != "wrapper" {
+					continue
+				}
+				if err != nil {
+					a.note = "ow-specgen (one run over all sources) failed: " + out
+				}
+				if b, e := os.ReadFile(filepath.Join(tmp, a.rel)); e == nil {
+					a.regenerated = append(a.regenerated, b)
+				}
+			}
+			st.allInOneRuns++
 		}
 	}
 	for rel := range existing {
@@ -381,7 +411,7 @@ func (e *enum) Run(i int64, r *vf.Rec) {
 func Spec() *vf.Check {
 	return &vf.Check{
 		ID: "C09", Level: "exploration", BlockSize: 1 << 20, // a single worker: the regeneration is done once
-		Rule: "complete enumeration of the generated artefacts: the working tree is copied to a scratch directory, every gen-*.go / generated_*.go is deleted there, genny (module cache) and pre/ow-specgen (built from the tree) are run for every //go:generate directive and every OW-SPEC source (ow-specgen three times each), and every produced file is compared byte-for-byte with the checked-in one; generated files in the tree that no generator run produces are orphans; " +
+		Rule: "complete enumeration of the generated artefacts: the working tree is copied to a scratch directory, every gen-*.go / generated_*.go is deleted there, genny (module cache) and pre/ow-specgen (built from the tree) are run for every //go:generate directive and every OW-SPEC source (ow-specgen three times each, plus one run over all sources at once in ascending and in descending order), and every produced file is compared byte-for-byte with the checked-in one; generated files in the tree that no generator run produces are orphans; " +
 			"every OW-SPEC block is parsed independently (yaml) and compared with the live sim.Catalog Description (registration, parameters in order with default, range, dimensions; inputs, states, outputs in order). distinct_nontrivial = artefacts that match.",
 		Assumptions: []string{"says nothing about the generators' behaviour on templates/specs that are not in the tree"},
 		Build: func(tier string) vf.Enumeration {
